@@ -13,10 +13,11 @@ from tlc import run_tlc
 import render, mast
 from mast import lit, var, bin_, un, par, idx
 
-PRE = ['TYPE RT', '  S AS STRING * 3', '  X AS INTEGER', 'END TYPE', 'A% = 2', 'B! = 3', 'S$ = "ab"', 'DIM AR%(5)', 'DIM AS$(3)',
-       'DIM FX AS STRING * 4', 'DIM REC AS RT', 'FX = "fx"', 'REC.S = "r"', 'REC.X = 4']
+PRE = ['TYPE RT', '  S AS STRING * 3', '  X AS INTEGER', 'END TYPE', 'TYPE RU', '  S AS STRING * 3', '  X AS INTEGER', 'END TYPE',
+       'A% = 2', 'B! = 3', 'S$ = "ab"', 'DIM AR%(5)', 'DIM AS$(3)',
+       'DIM FX AS STRING * 4', 'DIM REC AS RT', 'DIM RE2 AS RU', 'DIM RE3 AS RT', 'DIM RA(3) AS RT', 'FX = "fx"', 'REC.S = "r"', 'REC.X = 4']
 POST = ['FUNCTION FN%(X%)', '  FN% = X% + 1', 'END FUNCTION', 'FUNCTION FS$(X$)', '  FS$ = X$ + "!"', 'END FUNCTION',
-        'FUNCTION FD#(X#)', '  FD# = X# * 2', 'END FUNCTION', 'SUB SN(X#)', 'END SUB']
+        'FUNCTION FD#(X#)', '  FD# = X# * 2', 'END FUNCTION', 'SUB SN(X#)', 'END SUB', 'SUB SR(P AS RT)', 'END SUB']
 
 
 BUILTIN_SIGS = [("LEN", "s"), ("UCASE$", "s"), ("LCASE$", "s"), ("LTRIM$", "s"), ("RTRIM$", "s"), ("LEFT$", "sn"), ("RIGHT$", "sn"), ("MID$", "sn"),
@@ -38,10 +39,17 @@ def bare(n, t):
     return v
 
 
+def rec(n, ty):
+    v = var(n, "U")
+    v["bare"] = True
+    v["ty"] = ty
+    return v
+
+
 def leaves():
     # typed variables, literals, a fixed-length string variable and the two kinds of record member
     return [var("A", "I"), var("B", "S"), var("S", "$"), lit("I", 1), lit("$", "x"), lit("D", 2),
-            bare("FX", "$"), bare("REC.S", "$"), bare("REC.X", "I")]
+            bare("FX", "$"), bare("REC.S", "$"), bare("REC.X", "I"), rec("REC", "RT"), rec("RE2", "RU")]
 
 
 def exprs(tier, rng):
@@ -120,7 +128,25 @@ def positions(e):
     out.append(("for-step", ["FOR I% = 1 TO 2 STEP (" + t + ") * 0 + 1", "NEXT"],
                 {"k": "need", "e": bin_("+", bin_("*", par(e), lit("I", 0)), lit("I", 1)), "kind": "n"}))
     out.append(("for-lower", ["FOR I% = " + t + " TO 0", "NEXT"], {"k": "need", "e": e, "kind": "n"}))
-    out.append(("select-subject", ["SELECT CASE " + t, "CASE ELSE", "PRINT 1", "END SELECT"], {"k": "need", "e": e, "kind": "any"}))
+    out.append(("for-step-bare", ["FOR I% = 1 TO 2 STEP " + t, "NEXT"], {"k": "need", "e": e, "kind": "n"}))
+    # whole records: assignment and by-reference passing need a record of the same TYPE
+    out.append(("assign-rec", ["RE3 = " + t], {"k": "need", "e": e, "kind": "u:RT"}))
+    out.append(("sub-arg-rec", ["SR " + t], {"k": "need", "e": e, "kind": "u:RT"}))
+    # a user FUNCTION call that takes the expression as its argument, standing where the checker's deep walkers must look
+    fnn = ucall("FN%", ["n"], "n", par(e))
+    fns = ucall("FS$", ["s"], "s", par(e))
+    tn, ts = "FN%((" + t + "))", "FS$((" + t + "))"
+    out.append(("subscript-ucall", ["PRINT AR%(" + tn + ")"], {"k": "need", "e": idx("AR", "I", [fnn]), "kind": "any"}))
+    out.append(("subscript-ucall-str", ["PRINT AS$(LEN(" + ts + "))"], {"k": "need", "e": idx("AS", "$", [bcall("LEN", fns)]), "kind": "any"}))
+    out.append(("lhs-subscript-ucall", ["AR%(" + tn + ") = 1"], {"k": "need", "e": idx("AR", "I", [fnn]), "kind": "any"}))
+    out.append(("member-subscript-ucall", ["PRINT RA(" + tn + ").X"], {"k": "need", "e": idx("AR", "I", [fnn]), "kind": "any"}))
+    out.append(("lhs-member-subscript-ucall", ["RA(" + tn + ").X = 1"], {"k": "need", "e": idx("AR", "I", [fnn]), "kind": "any"}))
+    out.append(("case-ucall", ["SELECT CASE A%", "CASE 1 TO " + tn, "PRINT 1", "END SELECT"], {"k": "caseof", "subj": var("A", "I"), "test": fnn}))
+    out.append(("for-step-ucall", ["FOR I% = 1 TO 2 STEP " + tn, "NEXT"], {"k": "need", "e": fnn, "kind": "n"}))
+    out.append(("dim-bound-ucall", ["DIM DR%(" + tn + ")"], {"k": "need", "e": fnn, "kind": "n"}))
+    out.append(("print-using-ucall", ['PRINT USING "#"; ' + tn], {"k": "need", "e": fnn, "kind": "any"}))
+    out.append(("builtin-arg-ucall", ["PRINT LEFT$(" + ts + ", " + tn + ")"], {"k": "need", "e": bcall("LEFT$", fns, fnn), "kind": "any"}))
+    out.append(("select-subject", ["SELECT CASE " + t, "CASE ELSE", "PRINT 1", "END SELECT"], {"k": "need", "e": e, "kind": "top"}))
     out.append(("sub-arg-num", ["SN (" + t + ")"], {"k": "need", "e": ucall("FD#", ["n"], "n", par(e)), "kind": "any"}))
     out.append(("nested-arg", ["PRINT FN%(LEN(UCASE$((" + t + "))))"],
                 {"k": "need", "e": ucall("FN%", ["n"], "n", bcall("LEN", bcall("UCASE$", par(e)))), "kind": "any"}))
